@@ -90,11 +90,15 @@ static rc::Gen<Case> gen()
             // mostly plain components so that many strings are accepted; each position may go wrong
             std::string s;
             const int bad = *gen::weightedElement<int>({{9, -1}, {1, 0}, {1, 1}, {1, 2}, {1, 3}, {2, 4}, {2, 5}, {1, 6}});
+            // port boundary pairs (p1,p2): 0, 1, 1023, 1024, 65535
+            const int pb = *gen::weightedElement<int>({{12, -1}, {1, 0}, {1, 1}, {1, 2}, {1, 3}, {1, 4}});
+            static const int pbv[5][2] = {{0, 0}, {0, 1}, {3, 255}, {4, 0}, {255, 255}};
             for (int i = 0; i < 6; ++i) {
-                if (i == bad || bad == 6) s += *component(i < 4);
+                if (pb >= 0 && i >= 4 && bad != i && bad != 6) s += std::to_string(pbv[pb][i - 4]);
+                else if (i == bad || bad == 6) s += *component(i < 4);
                 else if (i == 4) s += std::to_string(*gen::weightedElement<int>({{6, 0}, {1, 1}, {1, 2}}) == 0 ? *vp::range<int>(4, 255) : *vp::range<int>(0, 4));
                 else s += std::to_string(*vp::range<int>(i < 4 ? 1 : 0, 255));
-                if (i < 5) s += *gen::weightedElement<std::string>({{30, ","}, {1, " ,"}, {1, ", "}, {1, ";"}, {1, ""}, {1, ",,"}, {1, "."}});
+                if (i < 5) s += *gen::weightedElement<std::string>({{80, ","}, {1, " ,"}, {1, ", "}, {1, ";"}, {1, ""}, {1, ",,"}, {1, "."}});
             }
             s += *gen::element(std::string(""), std::string(""), std::string(")"), std::string(")."), std::string(" x"), std::string(",7"), std::string("9"), std::string("\r\n"));
             if (*vp::range<int>(0, 30) == 0) s = *gen::element(std::string("1,2,3,4,5"), std::string(","), std::string("a"), std::string("(1,2,3,4,5,6)"), std::string("1,2,3,4,5,6,7,8"));
